@@ -117,3 +117,80 @@ package mem
 //@   use decomp(off + (k * n + o) * is + m, is, n, j + k, o, m)
 //@   label C24.lemma.mapper.agrees
 //@   ensures owner((k * n + o) * is + m, is, n) == ((off + (k * n + o) * is + m) / is) % n
+
+// ---- C20: Storage is a bounded flat byte array ----
+// Representation: s.data maps the base address of an allocation unit to the unit; absent units read as zero.
+
+//@ pred storageWF(s) = s.unitSize > 0 && s.unitSize <= 1<<40 && s.capacity <= 1<<62 && s.data != nil && (forall k uint64 :: k in s.data ==> s.data[k] != nil && len(s.data[k].data) == int(s.unitSize))
+
+//@ fn (*Storage).parseAddress
+//@   property C20
+//@   requires s.unitSize > 0
+//@   label C20.parse
+//@   ensures int(inUnitAddr) == int(addr) % int(s.unitSize) && int(baseAddr) == int(addr) - int(addr) % int(s.unitSize)
+//@   assigns nothing
+
+//@ fn (*Storage).checkRange
+//@   property C20
+//@   label C20.range
+//@   ensures result == nil <==> int(address) + int(length) <= int(s.capacity)
+//@   assigns nothing
+
+//@ fn newStorageUnit
+//@   property C20
+//@   requires uintSize <= 1<<40
+//@   label C20.newunit
+//@   ensures result != nil && fresh(result) && fresh(result.data) && len(result.data) == int(uintSize)
+//@   label C20.newunit.zero
+//@   ensures forall j in 0..int(uintSize) :: result.data[j] == 0
+//@   assigns nothing
+
+//@ fn (*Storage).createOrGetStorageUnit
+//@   property C20
+//@   requires storageWF(s)
+//@   label C20.getunit.beyond
+//@   ensures address > s.capacity ==> result0 == nil && result1 != nil && nothingAssigned()
+//@   label C20.getunit.ok
+//@   ensures address <= s.capacity ==> result1 == nil && result0 != nil && ((int(address) - int(address) % int(s.unitSize)) in s.data) && s.data[int(address) - int(address) % int(s.unitSize)] == result0
+//@   label C20.getunit.wf
+//@   ensures storageWF(s)
+//@   label C20.getunit.others
+//@   ensures forall k uint64 :: k != int(address) - int(address) % int(s.unitSize) ==> ((k in s.data) <==> old(k in s.data)) && s.data[k] == old(s.data[k])
+//@   label C20.getunit.existing
+//@   ensures old((int(address) - int(address) % int(s.unitSize)) in s.data) ==> s.data[int(address) - int(address) % int(s.unitSize)] == old(s.data[int(address) - int(address) % int(s.unitSize)])
+//@   label C20.getunit.created
+//@   ensures address <= s.capacity && !old((int(address) - int(address) % int(s.unitSize)) in s.data) ==> fresh(result0) && fresh(result0.data) && (forall j in 0..int(s.unitSize) :: result0.data[j] == 0)
+//@   assigns elems(s.data)
+
+//@ fn (*Storage).Read
+//@   property C20
+//@   requires storageWF(s)
+//@   label C20.read.bounds
+//@   ensures int(address) + int(len) > int(s.capacity) ==> result1 != nil
+//@   label C20.read.ok
+//@   ensures int(address) + int(len) <= int(s.capacity) ==> result1 == nil && len(result0) == int(len)
+//@   label C20.read.error.unchanged
+//@   ensures result1 != nil ==> nothingAssigned()
+//@   label C20.read.wf
+//@   ensures storageWF(s)
+//@   assigns elems(s.data)
+//@   loop 0: invariant storageWF(s)
+//@   loop 0: invariant int(currAddr) == int(address) + int(dataOffset) && int(dataOffset) + int(lenLeft) == int(len)
+//@   loop 0: invariant int(address) + int(len) <= int(s.capacity)
+//@   loop 0: invariant len(res) == int(len) && fresh(res)
+
+//@ fn (*Storage).Write
+//@   property C20
+//@   requires storageWF(s)
+//@   label C20.write.bounds
+//@   ensures int(address) + len(data) > int(s.capacity) ==> result != nil
+//@   label C20.write.ok
+//@   ensures int(address) + len(data) <= int(s.capacity) ==> result == nil
+//@   label C20.write.error.unchanged
+//@   ensures result != nil ==> nothingAssigned()
+//@   label C20.write.wf
+//@   ensures storageWF(s)
+//@   assigns elems(s.data), key("E|uint8|")
+//@   loop 0: invariant storageWF(s)
+//@   loop 0: invariant int(currAddr) == int(address) + int(dataOffset) && int(dataOffset) <= len(data)
+//@   loop 0: invariant int(address) + len(data) <= int(s.capacity)
